@@ -55,6 +55,7 @@ def main():
     ap.add_argument('--tier', default='quick')
     ap.add_argument('--seeded', action='store_true', help='run seeded/<id>/patch.diff instead of the catalogue')
     ap.add_argument('--all-checks', action='store_true')
+    ap.add_argument('--seed', default='1')
     ap.add_argument('--out', default=os.path.join(VERIF, 'mutants', 'RESULTS.json'))
     args = ap.parse_args()
 
@@ -94,7 +95,7 @@ def main():
                 if prop not in allchecks:
                     row[prop] = 'no-check'
                     continue
-                rc, sites, tail = run_check(d, prop, args.tier)
+                rc, sites, tail = run_check(d, prop, args.tier, args.seed)
                 row[prop] = {0: 'green', 1: 'VIOLATION', 2: 'harness-error'}.get(rc, f'rc{rc}')
                 print(f'{m["id"]:28s} {prop} {row[prop]:10s} {"; ".join(s[:70] for s in sites[:2])}')
                 if rc == 2:
